@@ -73,6 +73,19 @@ pub uninterp spec fn spec_popcount(x: u32) -> u32;
 pub assume_specification [u32::count_ones] (x: u32) -> (r: u32)
     ensures r == spec_popcount(x);
 
+// a few more std contracts (documented behaviour), so that code using them is verified instead of being undecided
+pub assume_specification<T: ?Sized, A: std::alloc::Allocator> [std::sync::Arc::<T, A>::strong_count] (a: &std::sync::Arc<T, A>) -> (r: usize)
+    ensures r >= 1;         // any positive count: whether another fork shares the node is not known to the code
+pub assume_specification<T, F: FnOnce(T) -> bool> [Option::<T>::is_none_or] (o: Option<T>, f: F) -> (r: bool)
+    requires o matches Some(x) ==> f.requires((x,)),
+    ensures o is None ==> r, o matches Some(x) ==> f.ensures((x,), r);
+pub assume_specification<T, F: FnOnce(T) -> bool> [Option::<T>::is_some_and] (o: Option<T>, f: F) -> (r: bool)
+    requires o matches Some(x) ==> f.requires((x,)),
+    ensures o is None ==> !r, o matches Some(x) ==> f.ensures((x,), r);
+pub assume_specification [usize::div_ceil] (a: usize, b: usize) -> (r: usize)
+    requires b > 0,
+    ensures r as int == (if a % b == 0 { a as int / b as int } else { a as int / b as int + 1 });
+
 // R8: `child.as_ref()` where `child: &mut Arc<Node>` resolves to the blanket `impl AsRef<U> for &mut T`, which forwards to
 // `Arc::as_ref` = `&**child`; named through this VERIFIED helper
 pub fn verif_node_ref(a: &Arc<Node>) -> (r: &Node)
@@ -823,8 +836,84 @@ pub proof fn lemma_two_witnesses(n: Node, d: nat, path: Seq<u32>) -> (ks: (Addre
     }
 }
 
+// two well-formed branches (same position) that answer every lookup alike occupy the same chunks
+pub proof fn lemma_same_bitmap(b1: Branch, b2: Branch, d: nat, path: Seq<u32>, root: bool)
+    requires
+        wf(Node::Branch(b1), d, path, root), wf(Node::Branch(b2), d, path, root), path.len() == d,
+        forall|k: Address| #[trigger] lookup(Node::Branch(b1), k, d) == lookup(Node::Branch(b2), k, d),
+    ensures
+        b1.bitmap == b2.bitmap,
+{
+    let n1 = Node::Branch(b1);
+    let n2 = Node::Branch(b2);
+    assert forall|c: nat| c < 32 implies bit(b1.bitmap, c) == bit(b2.bitmap, c) by {
+        if bit(b1.bitmap, c) {
+            lemma_rank_mono(b1.bitmap, c, 32);
+            let k = lemma_witness(nd(b1.children@[rank(b1.bitmap, c) as int]), d + 1, path.push(c as u32));
+            lemma_lift(b1, c, k, d, path, root);
+            assert(lookup(n2, k, d) is Some);
+        }
+        if bit(b2.bitmap, c) {
+            lemma_rank_mono(b2.bitmap, c, 32);
+            let k = lemma_witness(nd(b2.children@[rank(b2.bitmap, c) as int]), d + 1, path.push(c as u32));
+            lemma_lift(b2, c, k, d, path, root);
+            assert(lookup(n1, k, d) is Some);
+        }
+    }
+    lemma_bits_equal(b1.bitmap, b2.bitmap);
+}
+
+// ... and their children for the same chunk answer every lookup alike
+pub proof fn lemma_children_same_lookups(b1: Branch, b2: Branch, c: nat, d: nat, path: Seq<u32>, root: bool)
+    requires
+        wf(Node::Branch(b1), d, path, root), wf(Node::Branch(b2), d, path, root), path.len() == d,
+        forall|k: Address| #[trigger] lookup(Node::Branch(b1), k, d) == lookup(Node::Branch(b2), k, d),
+        b1.bitmap == b2.bitmap, c < 32, bit(b1.bitmap, c),
+    ensures
+        forall|k: Address| #[trigger] lookup(nd(b1.children@[rank(b1.bitmap, c) as int]), k, d + 1)
+            == lookup(nd(b2.children@[rank(b1.bitmap, c) as int]), k, d + 1),
+{
+    let n1 = Node::Branch(b1);
+    let n2 = Node::Branch(b2);
+    lemma_rank_mono(b1.bitmap, c, 32);
+    let i = rank(b1.bitmap, c) as int;
+    let ch1 = nd(b1.children@[i]);
+    let ch2 = nd(b2.children@[i]);
+    assert forall|k: Address| #[trigger] lookup(ch1, k, d + 1) == lookup(ch2, k, d + 1) by {
+        if spec_chunk(k, d) as nat == c {
+            assert(lookup(n1, k, d) == lookup(ch1, k, d + 1));
+            assert(lookup(n2, k, d) == lookup(ch2, k, d + 1));
+        } else {
+            if lookup(ch1, k, d + 1) is Some { lemma_lift(b1, c, k, d, path, root); }
+            if lookup(ch2, k, d + 1) is Some { lemma_lift(b2, c, k, d, path, root); }
+        }
+    }
+}
+
+// a leaf and a (non-root, hence two-key) branch never answer every lookup alike
+pub proof fn lemma_leaf_is_no_branch(l: Leaf, n: Node, d: nat, path: Seq<u32>)
+    requires
+        n is Branch, wf(n, d, path, false), path.len() == d,
+        forall|k: Address| #[trigger] lookup(Node::Leaf(l), k, d) == lookup(n, k, d),
+    ensures false,
+{
+    let ks = lemma_two_witnesses(n, d, path);
+    assert(lookup(Node::Leaf(l), ks.0, d) is Some);
+    assert(lookup(Node::Leaf(l), ks.1, d) is Some);
+}
+
+pub proof fn lemma_child_wf(b: Branch, c: nat, d: nat, path: Seq<u32>, root: bool)
+    requires wf(Node::Branch(b), d, path, root), c < 32, bit(b.bitmap, c),
+    ensures
+        rank(b.bitmap, c) < b.children@.len(),
+        wf(nd(b.children@[rank(b.bitmap, c) as int]), d + 1, path.push(c as u32), false),
+{
+    lemma_rank_mono(b.bitmap, c, 32);
+}
+
 // THEOREM [C20.equal_contents_equal_structure]: two well-formed tries (same position) that answer every lookup alike
 // are structurally equal - the shape depends only on the contents, not on the operations that produced them
+#[verifier::rlimit(60)]
 pub proof fn theorem_canonical(n1: Node, n2: Node, d: nat, path: Seq<u32>, root: bool)
     requires
         wf(n1, d, path, root), wf(n2, d, path, root), path.len() == d,
@@ -838,49 +927,22 @@ pub proof fn theorem_canonical(n1: Node, n2: Node, d: nat, path: Seq<u32>, root:
         Node::Leaf(l1) => {
             assert(lookup(n1, l1.key, d) == Some(l1.value@));
             if n2 is Branch {
-                let ks = lemma_two_witnesses(n2, d, path);
-                assert(lookup(n1, ks.0, d) is Some);
-                assert(lookup(n1, ks.1, d) is Some);
+                lemma_leaf_is_no_branch(l1, n2, d, path);
             }
         }
         Node::Branch(b1) => {
             if n2 is Leaf {
-                let l2 = n2->Leaf_0;
-                let ks = lemma_two_witnesses(n1, d, path);
-                assert(lookup(n2, ks.0, d) is Some);
-                assert(lookup(n2, ks.1, d) is Some);
+                lemma_leaf_is_no_branch(n2->Leaf_0, n1, d, path);
             } else {
                 let b2 = n2->Branch_0;
-                assert forall|c: nat| c < 32 implies bit(b1.bitmap, c) == bit(b2.bitmap, c) by {
-                    if bit(b1.bitmap, c) {
-                        lemma_rank_mono(b1.bitmap, c, 32);
-                        let k = lemma_witness(nd(b1.children@[rank(b1.bitmap, c) as int]), d + 1, path.push(c as u32));
-                        lemma_lift(b1, c, k, d, path, root);
-                        assert(lookup(n2, k, d) is Some);
-                    }
-                    if bit(b2.bitmap, c) {
-                        lemma_rank_mono(b2.bitmap, c, 32);
-                        let k = lemma_witness(nd(b2.children@[rank(b2.bitmap, c) as int]), d + 1, path.push(c as u32));
-                        lemma_lift(b2, c, k, d, path, root);
-                        assert(lookup(n1, k, d) is Some);
-                    }
-                }
-                lemma_bits_equal(b1.bitmap, b2.bitmap);
-                assert forall|i: int| 0 <= i < b1.children@.len() implies eqv(*#[trigger] b1.children@[i], nd(b2.children@[i])) by {
+                assert(n2 == Node::Branch(b2));
+                lemma_same_bitmap(b1, b2, d, path, root);
+                assert forall|i: int| 0 <= i < b1.children@.len() implies eqv(*#[trigger] b1.children@[i], *b2.children@[i]) by {
                     let c = lemma_select(b1.bitmap, i as nat, 32);
-                    let ch1 = nd(b1.children@[i]);
-                    let ch2 = nd(b2.children@[i]);
-                    let p = path.push(c as u32);
-                    assert forall|k: Address| #[trigger] lookup(ch1, k, d + 1) == lookup(ch2, k, d + 1) by {
-                        if spec_chunk(k, d) as nat == c {
-                            assert(lookup(n1, k, d) == lookup(ch1, k, d + 1));
-                            assert(lookup(n2, k, d) == lookup(ch2, k, d + 1));
-                        } else {
-                            if lookup(ch1, k, d + 1) is Some { lemma_lift(b1, c, k, d, path, root); }
-                            if lookup(ch2, k, d + 1) is Some { lemma_lift(b2, c, k, d, path, root); }
-                        }
-                    }
-                    theorem_canonical(ch1, ch2, d + 1, p, false);
+                    lemma_children_same_lookups(b1, b2, c, d, path, root);
+                    lemma_child_wf(b1, c, d, path, root);
+                    lemma_child_wf(b2, c, d, path, root);
+                    theorem_canonical(nd(b1.children@[i]), nd(b2.children@[i]), d + 1, path.push(c as u32), false);
                 }
             }
         }
@@ -927,6 +989,317 @@ pub proof fn theorem_equal_contents_equal_states(s1: State, s2: State)
     }
     theorem_canonical(n1, n2, 0, Seq::empty(), true);
     lemma_eqv_count(n1, n2);
+}
+
+// ---------------------------------------------------------------- ordered iteration
+pub open spec fn flatten(n: Node) -> Seq<(Address, Seq<u8>)>
+    decreases n, 0nat
+{
+    match n {
+        Node::Leaf(l) => seq![(l.key, l.value@)],
+        Node::Branch(b) => flat_upto(b.children, b.children@.len()),
+    }
+}
+// entries of the first j children, in child order
+pub open spec fn flat_upto(v: Vec<Arc<Node>>, j: nat) -> Seq<(Address, Seq<u8>)>
+    decreases v, j
+{
+    if j == 0 || j > v@.len() { Seq::empty() } else { flat_upto(v, (j - 1) as nat) + flatten(*v@[j - 1]) }
+}
+// number of nodes (termination measure of the iterator)
+pub open spec fn size(n: Node) -> nat
+    decreases n, 0nat
+{
+    match n {
+        Node::Leaf(_) => 1,
+        Node::Branch(b) => 1 + size_upto(b.children, b.children@.len()),
+    }
+}
+pub open spec fn size_upto(v: Vec<Arc<Node>>, j: nat) -> nat
+    decreases v, j
+{
+    if j == 0 || j > v@.len() { 0 } else { size_upto(v, (j - 1) as nat) + size(*v@[j - 1]) }
+}
+// what a stack of nodes (top = last) still yields, and how many nodes it holds
+pub open spec fn pending(st: Seq<&Node>) -> Seq<(Address, Seq<u8>)>
+    decreases st.len()
+{
+    if st.len() == 0 { Seq::empty() } else { flatten(*st.last()) + pending(st.drop_last()) }
+}
+pub open spec fn stack_size(st: Seq<&Node>) -> nat
+    decreases st.len()
+{
+    if st.len() == 0 { 0 } else { size(*st.last()) + stack_size(st.drop_last()) }
+}
+
+/*@ extract src/execution/state.rs :: struct Iter
+derive
+@*/
+
+// iterator stand-ins (TRUSTED): `slice.iter()`, `.rev()`, `.map(f)`, `Vec::extend` over the children of a branch
+pub struct VIt<'a> { pub v: &'a Vec<Arc<Node>>, pub rev: bool }
+pub struct VMapped<'a, F> { pub it: VIt<'a>, pub f: F }
+impl<'a> VIt<'a> {
+    // the sequence of elements this iterator yields
+    pub open spec fn yields(&self) -> Seq<Arc<Node>> { if self.rev { self.v@.reverse() } else { self.v@ } }
+    pub fn rev(self) -> (r: VIt<'a>) ensures r.yields() == self.yields().reverse() {
+        proof { assert(self.v@.reverse().reverse() =~= self.v@); }
+        VIt { v: self.v, rev: !self.rev }
+    }
+    pub fn map<F: Fn(&'a Arc<Node>) -> &'a Node>(self, f: F) -> (r: VMapped<'a, F>) ensures r.it == self, r.f == f { VMapped { it: self, f } }
+}
+pub fn verif_iter<'a>(v: &'a Vec<Arc<Node>>) -> (r: VIt<'a>) ensures r.yields() == v@ { VIt { v, rev: false } }
+#[verifier::external_body]
+pub fn verif_extend<'a, F: Fn(&'a Arc<Node>) -> &'a Node>(st: &mut Vec<&'a Node>, m: VMapped<'a, F>)
+    requires forall|i: int| 0 <= i < m.it.yields().len() ==> call_requires(m.f, (&m.it.yields()[i],)),
+    ensures
+        final(st)@.len() == old(st)@.len() + m.it.yields().len(),
+        forall|i: int| 0 <= i < old(st)@.len() ==> final(st)@[i] == old(st)@[i],
+        forall|i: int| 0 <= i < m.it.yields().len() ==> call_ensures(m.f, (&m.it.yields()[i],), #[trigger] final(st)@[old(st)@.len() + i]),
+{ unimplemented!() }
+
+pub proof fn lemma_push_children(st1: Seq<&Node>, st2: Seq<&Node>, v: Vec<Arc<Node>>)
+    requires
+        st2.len() == st1.len() + v@.len(),
+        forall|i: int| 0 <= i < st1.len() ==> st2[i] == st1[i],
+        forall|i: int| 0 <= i < v@.len() ==> *#[trigger] st2[st1.len() + i] == *v@.reverse()[i],
+    ensures
+        pending(st2) == flat_upto(v, v@.len()) + pending(st1),
+        stack_size(st2) == size_upto(v, v@.len()) + stack_size(st1),
+{
+    lemma_push_children_k(st1, st2, v, v@.len());
+    assert(st2.subrange(0, st2.len() as int) =~= st2);
+    assert(flat_upto(v, 0) + pending(st2) =~= pending(st2));
+}
+
+// the stack prefix holding st1 and the first m pushed children (= the LAST m children of the branch)
+pub proof fn lemma_push_children_k(st1: Seq<&Node>, st2: Seq<&Node>, v: Vec<Arc<Node>>, m: nat)
+    requires
+        st2.len() == st1.len() + v@.len(), m <= v@.len(),
+        forall|i: int| 0 <= i < st1.len() ==> st2[i] == st1[i],
+        forall|i: int| 0 <= i < v@.len() ==> *#[trigger] st2[st1.len() + i] == *v@.reverse()[i],
+    ensures
+        flat_upto(v, (v@.len() - m) as nat) + pending(st2.subrange(0, (st1.len() + m) as int)) == flat_upto(v, v@.len()) + pending(st1),
+        size_upto(v, (v@.len() - m) as nat) + stack_size(st2.subrange(0, (st1.len() + m) as int)) == size_upto(v, v@.len()) + stack_size(st1),
+    decreases m,
+{
+    let n = v@.len();
+    let t = st2.subrange(0, (st1.len() + m) as int);
+    if m == 0 {
+        assert(t =~= st1);
+    } else {
+        lemma_push_children_k(st1, st2, v, (m - 1) as nat);
+        let t1 = st2.subrange(0, st1.len() + m - 1);
+        assert(t.drop_last() =~= t1);
+        assert(t.last() == st2[st1.len() + (m - 1)]);
+        assert(*t.last() == *v@.reverse()[m - 1]);
+        assert(v@.reverse()[m - 1] == v@[n - m]);
+        // pending(t) = flatten(v[n-m]) + pending(t1)
+        let a = flat_upto(v, (n - m) as nat);
+        let f = flatten(nd(v@[n - m]));
+        assert(flat_upto(v, (n - m + 1) as nat) == a + f);
+        assert(a + (f + pending(t1)) =~= (a + f) + pending(t1));
+    }
+}
+
+// the order on addresses (`[u8; 32]: Ord`, lexicographic on bytes); uninterpreted here
+pub uninterp spec fn key_lt(a: Address, b: Address) -> bool;
+// trie order is key order: two keys that agree on the chunks before depth d and differ at d compare like those chunks.
+// PROVED by the complete Kani harness kani_chunk_order_is_key_order on the real chunk_at and the real `<` on [u8; 32].
+#[verifier::external_body]
+pub proof fn axiom_chunk_order(k1: Address, k2: Address, d: nat)
+    requires d < 52, forall|i: nat| i < d ==> spec_chunk(k1, i) == spec_chunk(k2, i), spec_chunk(k1, d) < spec_chunk(k2, d),
+    ensures key_lt(k1, k2),
+{
+}
+
+pub open spec fn sorted(s: Seq<(Address, Seq<u8>)>) -> bool {
+    forall|i: int, j: int| 0 <= i < j < s.len() ==> key_lt(#[trigger] s[i].0, #[trigger] s[j].0)
+}
+
+pub proof fn lemma_rank_order(bm: u32, a: nat, b: nat)
+    requires a < 32, b < 32, bit(bm, a), bit(bm, b), rank(bm, a) < rank(bm, b),
+    ensures a < b,
+{
+    if b <= a { lemma_rank_mono(bm, b, a); }
+}
+
+// every entry listed for a subtree is stored there (on the subtree's path) ...
+pub proof fn lemma_flatten_sound(n: Node, d: nat, path: Seq<u32>, root: bool)
+    requires wf(n, d, path, root), path.len() == d,
+    ensures forall|i: int| 0 <= i < flatten(n).len() ==>
+        on_path(#[trigger] flatten(n)[i].0, d, path) && lookup(n, flatten(n)[i].0, d) == Some(flatten(n)[i].1),
+    decreases n, 1nat,
+{
+    match n {
+        Node::Leaf(l) => {}
+        Node::Branch(b) => { lemma_flat_upto_sound(b, b.children@.len(), d, path, root); }
+    }
+}
+
+pub proof fn lemma_flat_upto_sound(b: Branch, j: nat, d: nat, path: Seq<u32>, root: bool)
+    requires wf(Node::Branch(b), d, path, root), path.len() == d, j <= b.children@.len(),
+    ensures forall|i: int| 0 <= i < flat_upto(b.children, j).len() ==> {
+        let e = #[trigger] flat_upto(b.children, j)[i];
+        on_path(e.0, d, path) && lookup(Node::Branch(b), e.0, d) == Some(e.1)
+            && bit(b.bitmap, spec_chunk(e.0, d) as nat) && rank(b.bitmap, spec_chunk(e.0, d) as nat) < j
+    },
+    decreases b, 0nat, j,
+{
+    if j > 0 {
+        lemma_flat_upto_sound(b, (j - 1) as nat, d, path, root);
+        let c = lemma_select(b.bitmap, (j - 1) as nat, 32);
+        let ch = nd(b.children@[j - 1]);
+        lemma_flatten_sound(ch, d + 1, path.push(c as u32), false);
+        let pre = flat_upto(b.children, (j - 1) as nat);
+        let fl = flatten(ch);
+        assert(flat_upto(b.children, j) == pre + fl);
+        assert forall|i: int| 0 <= i < flat_upto(b.children, j).len() implies ({
+            let e = #[trigger] flat_upto(b.children, j)[i];
+            on_path(e.0, d, path) && lookup(Node::Branch(b), e.0, d) == Some(e.1)
+                && bit(b.bitmap, spec_chunk(e.0, d) as nat) && rank(b.bitmap, spec_chunk(e.0, d) as nat) < j
+        }) by {
+            if i < pre.len() {
+                assert(flat_upto(b.children, j)[i] == pre[i]);
+            } else {
+                let e = fl[i - pre.len()];
+                assert(flat_upto(b.children, j)[i] == e);
+                assert(on_path(e.0, d + 1, path.push(c as u32)));
+                lemma_on_path_pop(e.0, d, path, c as u32);
+                lemma_lift(b, c, e.0, d, path, root);
+            }
+        }
+    }
+}
+
+// ... in strictly increasing key order ...
+pub proof fn lemma_flatten_sorted(n: Node, d: nat, path: Seq<u32>, root: bool)
+    requires wf(n, d, path, root), path.len() == d,
+    ensures sorted(flatten(n)),
+    decreases n, 1nat,
+{
+    match n {
+        Node::Leaf(l) => {}
+        Node::Branch(b) => { lemma_flat_upto_sorted(b, b.children@.len(), d, path, root); }
+    }
+}
+
+pub proof fn lemma_flat_upto_sorted(b: Branch, j: nat, d: nat, path: Seq<u32>, root: bool)
+    requires wf(Node::Branch(b), d, path, root), path.len() == d, j <= b.children@.len(),
+    ensures sorted(flat_upto(b.children, j)),
+    decreases b, 0nat, j,
+{
+    if j > 0 {
+        lemma_flat_upto_sorted(b, (j - 1) as nat, d, path, root);
+        lemma_flat_upto_sound(b, (j - 1) as nat, d, path, root);
+        lemma_flat_upto_sound(b, j, d, path, root);
+        let c = lemma_select(b.bitmap, (j - 1) as nat, 32);
+        let ch = nd(b.children@[j - 1]);
+        lemma_flatten_sorted(ch, d + 1, path.push(c as u32), false);
+        lemma_flatten_sound(ch, d + 1, path.push(c as u32), false);
+        let pre = flat_upto(b.children, (j - 1) as nat);
+        let fl = flatten(ch);
+        let all = flat_upto(b.children, j);
+        assert(all == pre + fl);
+        assert forall|x: int, y: int| 0 <= x < y < all.len() implies key_lt(#[trigger] all[x].0, #[trigger] all[y].0) by {
+            if y < pre.len() {
+                assert(all[x] == pre[x] && all[y] == pre[y]);
+            } else if x >= pre.len() {
+                assert(all[x] == fl[x - pre.len()] && all[y] == fl[y - pre.len()]);
+            } else {
+                let ex = pre[x];
+                let ey = fl[y - pre.len()];
+                assert(all[x] == ex && all[y] == ey);
+                lemma_lift(b, c, ey.0, d, path, root);
+                let cx = spec_chunk(ex.0, d) as nat;
+                lemma_rank_order(b.bitmap, cx, c);
+                assert forall|i: nat| i < d implies spec_chunk(ex.0, i) == spec_chunk(ey.0, i) by {
+                    assert(spec_chunk(ex.0, i) == path[i as int]);
+                    assert(spec_chunk(ey.0, i) == path[i as int]);
+                }
+                axiom_chunk_order(ex.0, ey.0, d);
+            }
+        }
+    }
+}
+
+// ... and every stored entry is listed
+pub proof fn lemma_flatten_complete(n: Node, k: Address, d: nat, path: Seq<u32>, root: bool)
+    requires wf(n, d, path, root), path.len() == d, lookup(n, k, d) is Some,
+    ensures flatten(n).contains((k, lookup(n, k, d)->0)),
+    decreases n,
+{
+    match n {
+        Node::Leaf(l) => { assert(flatten(n)[0] == (k, l.value@)); }
+        Node::Branch(b) => {
+            let c = spec_chunk(k, d) as nat;
+            let i = rank(b.bitmap, c);
+            let ch = nd(b.children@[i as int]);
+            lemma_flatten_complete(ch, k, d + 1, path.push(c as u32), false);
+            let e = (k, lookup(n, k, d)->0);
+            let idx = choose|x: int| 0 <= x < flatten(ch).len() && flatten(ch)[x] == e;
+            lemma_flat_upto_contains(b.children, i + 1, b.children@.len(), idx, e);
+        }
+    }
+}
+
+pub proof fn lemma_flat_upto_contains(v: Vec<Arc<Node>>, j: nat, m: nat, idx: int, e: (Address, Seq<u8>))
+    requires 1 <= j <= m <= v@.len(), 0 <= idx < flatten(nd(v@[j - 1])).len(), flatten(nd(v@[j - 1]))[idx] == e,
+    ensures flat_upto(v, m).contains(e),
+    decreases m,
+{
+    if m == j {
+        let pre = flat_upto(v, (j - 1) as nat);
+        assert(flat_upto(v, j)[pre.len() + idx] == e);
+    } else {
+        lemma_flat_upto_contains(v, j, (m - 1) as nat, idx, e);
+        let pre = flat_upto(v, (m - 1) as nat);
+        let x = choose|x: int| 0 <= x < pre.len() && pre[x] == e;
+        assert(flat_upto(v, m)[x] == e);
+    }
+}
+
+pub proof fn lemma_flatten_len(n: Node)
+    ensures flatten(n).len() == count(n),
+    decreases n, 1nat,
+{
+    match n {
+        Node::Leaf(_) => {}
+        Node::Branch(b) => { lemma_flat_upto_len(b.children, b.children@.len()); }
+    }
+}
+pub proof fn lemma_flat_upto_len(v: Vec<Arc<Node>>, j: nat)
+    ensures flat_upto(v, j).len() == sum_upto(v, j),
+    decreases v, j,
+{
+    if j > 0 && j <= v@.len() {
+        lemma_flat_upto_len(v, (j - 1) as nat);
+        lemma_flatten_len(nd(v@[j - 1]));
+    }
+}
+
+impl State {
+    // the entries of the state in iteration order
+    pub open spec fn listing(&self) -> Seq<(Address, Seq<u8>)> { flatten(*self.root) }
+}
+
+// THEOREM [C20.iteration_lists_the_map_in_key_order]: what iteration yields (see Iter::next) is exactly the map's entries,
+// each once, in strictly increasing key order
+pub proof fn theorem_listing_is_the_ordered_map(s: State)
+    requires s.inv(),
+    ensures
+        sorted(s.listing()),
+        s.listing().len() == s.entries(),
+        forall|i: int| 0 <= i < s.listing().len() ==> s.find(#[trigger] s.listing()[i].0) == Some(s.listing()[i].1),
+        forall|k: Address| s.find(k) is Some ==> s.listing().contains((k, #[trigger] s.find(k)->0)),
+{
+    let n = nd(s.root);
+    lemma_flatten_sorted(n, 0, Seq::empty(), true);
+    lemma_flatten_sound(n, 0, Seq::empty(), true);
+    lemma_flatten_len(n);
+    assert forall|k: Address| s.find(k) is Some implies s.listing().contains((k, #[trigger] s.find(k)->0)) by {
+        lemma_flatten_complete(n, k, 0, Seq::empty(), true);
+    }
 }
 
 pub mod code {
@@ -1184,6 +1557,7 @@ after `depth += 1;`
 impl State {
 /*@ extract src/execution/state.rs :: impl State/fn insert_rec
 props C20
+prefix #[verifier::rlimit(50)]
 ret r
 rewrite[R8] `child.as_ref()` => `verif_node_ref(child)`
 rewrite[R10] `return Self::insert_rec(VANY);` => `let verif_r = Self::insert_rec(VANY); proof { lemma_insert_step(n0, b0, *branch, c0, *child, key, val, d, depth == 0); } return verif_r;`
@@ -1237,6 +1611,7 @@ before `*child = Arc::new(split_leaves(`
 impl State {
 /*@ extract src/execution/state.rs :: impl State/fn remove_rec
 props C20
+prefix #[verifier::rlimit(50)]
 ret r
 rewrite[R8] `child.as_ref()` => `verif_node_ref(child)`
 requires
@@ -1335,6 +1710,52 @@ ensures
         r is None ==> *final(self) == *old(self),
 before `let old = Self::remove_rec(`
         proof { assert(on_path(*key, 0, Seq::<u32>::empty())); }
+@*/
+}
+
+impl State {
+/*@ extract src/execution/state.rs :: impl State/fn iter
+props C20
+ret r
+requires
+        self.inv(),
+ensures
+        // [C20.iteration_starts_with_the_whole_map] nothing yielded yet: everything the state lists is pending
+        pending(r.stack@) == self.listing(),
+rewrite[R10] `Iter { VANY }` => `let verif_r = Iter { VANY }; proof { let st = verif_r.stack@; assert(st.len() == 1); assert(pending(st.drop_last()) =~= Seq::empty()); assert(pending(st) =~= flatten(*st.last())); } verif_r`
+@*/
+}
+
+impl<'a> Iter<'a> {
+// `impl Iterator for Iter` (trait method read as an inherent method: the Item type is written out)
+/*@ extract src/execution/state.rs :: impl Iterator for Iter<'a>/fn next
+props C20
+ret r
+sig `Option<Self::Item>` => `Option<(&'a Address, &'a [u8])>`
+rewrite[R8] `branch.children.iter()` => `verif_iter(&branch.children)`
+rewrite[R8] `self.stack.extend(` => `verif_extend(&mut self.stack, `
+rewrite[R10] `=> return Some(VANY),` => `=> { proof { assert(st0.drop_last() == self.stack@); } return Some(VANY); }`
+ensures
+        // [C20.next_yields_the_pending_entries_in_order] each call hands out the first pending entry and leaves the rest
+        // pending; None exactly when nothing is pending (so a full iteration is State::listing(), see the theorem)
+        r matches Some(kv) ==> pending(old(self).stack@) == seq![(*kv.0, kv.1@)] + pending(final(self).stack@),
+        r is None ==> pending(old(self).stack@).len() == 0 && final(self).stack@.len() == 0,
+loop 0
+        invariant pending(self.stack@) == pending(old(self).stack@),
+        decreases stack_size(self.stack@)
+before `match self.stack.pop()? {`
+        let ghost st0 = self.stack@;
+before `let children =`
+        let ghost st1 = self.stack@;
+after `verif_extend(VANY);`
+        proof {
+            assert(st0.drop_last() == st1);
+            lemma_push_children(st1, self.stack@, branch.children);
+        }
+closure 0
+        params child: &'a Arc<Node>
+        ret o: &'a Node
+        ensures *o == **child
 @*/
 }
 
